@@ -168,6 +168,23 @@ func cmdCheck(args []string) {
 			trusted[c.Kind+" "+name] = true
 		}
 	}
+	// the axioms (prelude of each theory in use) must be satisfiable on their own: an inconsistent axiom
+	// set proves everything. Checked in z3's incremental mode, which instantiates eagerly.
+	{
+		seen := map[string]bool{}
+		for _, o := range obls {
+			if seen[o.Theory] {
+				continue
+			}
+			seen[o.Theory] = true
+			f := filepath.Join(work, "prelude_"+sanitize(o.Theory)+".smt2")
+			os.WriteFile(f, []byte("(set-logic ALL)\n"+v.prelude(o.Theory)+"(push 1)\n(check-sat)\n"), 0644)
+			res, _, _ := runSolver(context.Background(), solvers["z3-new"], f, 10000)
+			if res == "unsat" {
+				engineErrs = append(engineErrs, "inconsistent axioms: the prelude of theory '"+o.Theory+"' is unsatisfiable on its own")
+			}
+		}
+	}
 	v.dischargeAll(obls, work, timeout, all, 16)
 	// second chance: an obligation no solver decided within the budget is tried again alone-ish (fewer
 	// workers, three times the budget), so that machine load does not turn a slow proof into an alarm.
